@@ -486,3 +486,43 @@ func recordedTypes(s string) string {
 	}
 	return s
 }
+
+// recordedPkgs: the packages of the recorded tree (from the function table); newPkgs: module packages of the
+// loaded tree that are not among them.
+var newPkgs = map[string]bool{}
+
+func computeNewPackages(p *Prog) {
+	newPkgs = map[string]bool{}
+	var tab []PinnedFunc
+	if err := json.Unmarshal(pinnedFuncsJSON, &tab); err != nil || len(tab) == 0 {
+		return
+	}
+	rec := map[string]bool{}
+	for _, pf := range tab {
+		rec[pf.Pkg] = true
+	}
+	for _, r := range loadPinnedTypes() {
+		if i := strings.LastIndexByte(r[0], '.'); i > 0 {
+			rec[r[0][:i]] = true
+		}
+	}
+	for _, pk := range p.Pkgs {
+		if !rec[pk.PkgPath] && len(pk.Syntax) > 0 {
+			// packages without functions are not in the function table; only count packages that have some
+			has := false
+			for _, f := range namedFuncs(p) {
+				if f.Pkg != nil && f.Pkg.Pkg.Path() == pk.PkgPath {
+					has = true
+					break
+				}
+			}
+			if has {
+				newPkgs[pk.PkgPath] = true
+				RenameNotes = append(RenameNotes, "package new to the module, scanned with the daemon: "+strings.ReplaceAll(pk.PkgPath, ModPath+"/", ""))
+			}
+		}
+	}
+}
+
+// IsNewModulePackage: a package of the module that the recorded tree does not have.
+func IsNewModulePackage(path string) bool { return newPkgs[path] }
